@@ -15,6 +15,7 @@ package main
 //         the same with concurrently issued requests.
 
 import (
+	"bufio"
 	"bytes"
 	"context"
 	"encoding/json"
@@ -28,6 +29,7 @@ import (
 	"net/http/httptest"
 	"net/url"
 	"os"
+	"os/exec"
 	"path"
 	"path/filepath"
 	"sort"
@@ -931,8 +933,172 @@ func c20RunBurst(in *c20In) Result {
 		Class: fmt.Sprintf("burst:%s:n=%d", sig, len(in.Burst)), Direct: direct}
 }
 
+// ---------------------------------------------------------------------------------------------
+// every case runs in a child process of the harness binary (`harness c20child`): a fatal runtime
+// error of the implementation (stack overflow of a recursive expansion, concurrent map write) or a
+// hang becomes a violation with a replay instead of taking the check down
+
+type c20ChildProc struct {
+	cmd    *exec.Cmd
+	in     io.WriteCloser
+	out    *bufio.Reader
+	errBuf *c20Tail
+}
+
+type c20Tail struct {
+	mu sync.Mutex
+	b  []byte
+}
+
+func (t *c20Tail) Write(p []byte) (int, error) {
+	t.mu.Lock()
+	if len(t.b) < 1<<18 {
+		n := 1<<18 - len(t.b)
+		if n > len(p) {
+			n = len(p)
+		}
+		t.b = append(t.b, p[:n]...)
+	}
+	t.mu.Unlock()
+	return len(p), nil
+}
+func (t *c20Tail) String() string { t.mu.Lock(); defer t.mu.Unlock(); return string(t.b) }
+
+var c20TheChild *c20ChildProc
+
+func c20GetChild() (*c20ChildProc, error) {
+	if c20TheChild != nil {
+		return c20TheChild, nil
+	}
+	cmd := exec.Command(os.Args[0], "c20child")
+	cmd.Env = os.Environ()
+	in, err := cmd.StdinPipe()
+	if err != nil {
+		return nil, err
+	}
+	// replies come back on fd 3: the implementation prints notices on stdout
+	pr, pw, err := os.Pipe()
+	if err != nil {
+		return nil, err
+	}
+	cmd.ExtraFiles = []*os.File{pw}
+	tail := &c20Tail{}
+	cmd.Stderr = tail
+	if err := cmd.Start(); err != nil {
+		return nil, err
+	}
+	pw.Close()
+	c20TheChild = &c20ChildProc{cmd: cmd, in: in, out: bufio.NewReaderSize(pr, 1<<20), errBuf: tail}
+	return c20TheChild, nil
+}
+
+func c20KillChild() string {
+	ch := c20TheChild
+	if ch == nil {
+		return ""
+	}
+	c20TheChild = nil
+	ch.in.Close()
+	ch.cmd.Process.Kill()
+	ch.cmd.Wait()
+	return ch.errBuf.String()
+}
+
 func c20Run(in0 interface{}) Result {
 	in := in0.(*c20In)
+	if os.Getenv("C20_INPROC") != "" {
+		return c20RunLocal(in)
+	}
+	crash := func(why string) Result {
+		tail := c20KillChild()
+		// keep the runtime's own message, not the server's info lines or the goroutine dump
+		if i := strings.Index(tail, "fatal error:"); i >= 0 {
+			tail = tail[i:]
+		} else if i := strings.Index(tail, "panic:"); i >= 0 {
+			tail = tail[i:]
+		} else {
+			tail = ""
+		}
+		if i := strings.Index(tail, "\n\n"); i > 0 {
+			tail = tail[:i]
+		}
+		if len(tail) > 600 {
+			tail = tail[:600]
+		}
+		return Result{Term: "(CBurst [])", Obs: map[string]interface{}{"crash": why, "stderr": tail}, Sig: "crash:" + in.Kind,
+			Class: "crash:" + in.Kind, Direct: "the implementation took the process down or hung: " + why + ": " + strings.TrimSpace(tail)}
+	}
+	ch, err := c20GetChild()
+	if err != nil {
+		return Result{Term: "(CBurst [])", Sig: "child:start", Class: "child:start", Direct: "cannot start child: " + err.Error()}
+	}
+	raw, _ := json.Marshal(in)
+	if _, err := ch.in.Write(append(raw, '\n')); err != nil {
+		return crash("child gone: " + err.Error())
+	}
+	type reply struct {
+		line []byte
+		err  error
+	}
+	rc := make(chan reply, 1)
+	go func() {
+		l, err := ch.out.ReadBytes('\n')
+		rc <- reply{l, err}
+	}()
+	limit := 30 * time.Second
+	if in.Kind == "burst" {
+		limit = 90 * time.Second
+	}
+	select {
+	case r := <-rc:
+		if r.err != nil {
+			return crash("child exited")
+		}
+		var res Result
+		if err := json.Unmarshal(r.line, &res); err != nil {
+			return crash("bad reply: " + err.Error())
+		}
+		if in.Kind == "end" {
+			ch.in.Close()
+			ch.cmd.Wait()
+			c20TheChild = nil
+		}
+		return res
+	case <-time.After(limit):
+		return crash("no reply within " + limit.String())
+	}
+}
+
+func c20ChildMain(args []string) int {
+	rd := bufio.NewReaderSize(os.Stdin, 1<<20)
+	w := bufio.NewWriter(os.NewFile(3, "replies"))
+	for {
+		line, err := rd.ReadBytes('\n')
+		if len(bytes.TrimSpace(line)) > 0 {
+			in := &c20In{}
+			var res Result
+			if e := json.Unmarshal(line, in); e != nil {
+				res = Result{Term: "(CBurst [])", Sig: "child:decode", Class: "child:decode", Direct: "child cannot decode input: " + e.Error()}
+			} else {
+				res = c20RunLocal(in)
+			}
+			b, _ := json.Marshal(res)
+			w.Write(b)
+			w.WriteByte('\n')
+			w.Flush()
+		}
+		if err != nil {
+			break
+		}
+	}
+	c20StopSites()
+	if c20Root != "" {
+		os.RemoveAll(c20Root)
+	}
+	return 0
+}
+
+func c20RunLocal(in *c20In) Result {
 	c20Init()
 	if in.Req == nil {
 		in.Req = &c20Req{}
@@ -1341,6 +1507,7 @@ func c20GenCoq(repo string) (string, error) {
 }
 
 func init() {
+	extraCommands["c20child"] = c20ChildMain
 	registerGen("Gen_C20.v", c20GenCoq)
 	register(&Property{
 		ID: "C20", Imports: "V.Lib V.C20_Model", Judge: "judge", Shard: 100,
